@@ -191,11 +191,12 @@ def exc_name_of_model(x):
     return x
 
 
-def canon_impl(impl):
+def canon_impl(impl, case=None):
     rn = Renamer()
     out = []
     names_bound = set()
-    for ent in impl["trace"]:
+    ops = [None] + (case["ops"] if case else [None] * len(impl["trace"]))
+    for ent, o in zip(impl["trace"], ops):
         s = ent["snap"]
         c = ent.get("cell")
         if c:
@@ -213,9 +214,15 @@ def canon_impl(impl):
                 "loaded": s["loaded"], "escaped": ent.get("escaped")}
         co = None
         if c:
-            co = {"path": c["pf_calls"] > 0, "escaped": c.get("escaped")}
+            esc = c.get("escaped")
+            if esc is None and o is not None and c.get("error") is not None:
+                # run_cell reports an exception that left a hook as the cell's error
+                injected = {e for _, e in o.get("faults", [])} | ({case.get("bad_exc")} if case else set())
+                if c["error"] in injected and c["error"] != "NameError":
+                    esc = c["error"]
+            co = {"path": c["pf_calls"] > 0, "escaped": esc}
             if c["act"] in ("run", "runfile", "prun", "debugstmt"):
-                co["ok"] = (c.get("error") != "NameError") if "escaped" not in c else False
+                co["ok"] = (c.get("error") != "NameError" and "NameError" not in c.get("stdout", "")) if esc is None else False
             elif c["act"] == "inspect":
                 co["ok"] = bool(c.get("result")) if "escaped" not in c else False
         out.append([snap, co])
@@ -359,7 +366,7 @@ def evaluate(ctx, cases, results):
         impl, ref = r["impl"], r["ref"]
         if not impl["env"].get("app_ok"):
             ctx.disagreement("environment hypothesis: initialised terminal app", c, impl["env"], None)
-        a, b = canon_impl(impl), canon_model(mtr[ci], c)
+        a, b = canon_impl(impl, c), canon_model(mtr[ci], c)
         d = first_diff(a, b)
         if d:
             ctx.disagreement("session trace", c, d["impl"], dict(model=d["model"], step=d["step"], fields=d["fields"]))
@@ -383,7 +390,7 @@ def evaluate(ctx, cases, results):
     if legacy_needed:
         lex = [model_expr(cases[ci], results[ci]["impl"], LEGACY) for ci in legacy_needed]
         for ci, m in zip(legacy_needed, cm.coq_eval_json(REQ, lex, shard=40)):
-            if first_diff(canon_impl(results[ci]["impl"]), canon_model(m, cases[ci])) is None:
+            if first_diff(canon_impl(results[ci]["impl"], cases[ci]), canon_model(m, cases[ci])) is None:
                 ctx.bump("matches_model_of_unrepaired_code")
     ctx.notes["model_evaluations_in_kernel"] = len(exprs)
 
@@ -415,7 +422,7 @@ def replay(payload):
     impl = r.get("impl", r)
     m = cm.coq_eval_json(REQ, [model_expr(case, impl, FIXED)])[0] if "trace" in impl else None
     print(json.dumps({"case": case,
-                      "impl": canon_impl(impl) if "trace" in impl else impl,
+                      "impl": canon_impl(impl, case) if "trace" in impl else impl,
                       "model": canon_model(m, case) if m else None,
                       "oracle": oracle(case, impl, r.get("ref")) if "trace" in impl else None}, indent=1))
     return 0
